@@ -56,8 +56,11 @@ Definition wf_doc (d : fitsdoc) : bool := match d with [] => false | _ => forall
 Fixpoint strides_of (naxes : list N) : list N :=
   match naxes with [] => [] | _ :: r => prodN r :: strides_of r end.
 
+(* the keys write_key can store: printable and not reserved.  EXTNAME and HDUNAME — the names fits_movnam_hdu compares, also in
+   the primary header — are in the translated reserved list since the fix of C06:aux-key:EXTNAME-shadows-KNOTSn
+   (C06_L1.reserved_EXTNAME / reserved_HDUNAME are proved over Generated_fits and break if they leave it) *)
 Definition aux_key_ok (k : str) : bool :=
-  key_legal k && negb (reserved k) && negb (str_eqb k s_EXTNAME) && negb (str_eqb k s_HDUNAME).
+  key_legal k && negb (reserved k).
 
 Definition wf_table (t : table) : bool :=
   let nd := length (t_order t) in
@@ -81,7 +84,7 @@ Definition wf_table (t : table) : bool :=
      periods, when present           ndim entries; each header token without blank or '/', not starting with a quote, and
                                      at most 59 characters (what is left on a card after "HIERARCH PERIODnnn = "; the
                                      text %.15G produces has at most 22)
-     auxiliary entries               key not reserved / EXTNAME / HDUNAME, characters 32..126 (wf_table: aux_key_ok);
+     auxiliary entries               key not reserved (that includes EXTNAME / HDUNAME), characters 32..126 (wf_table: aux_key_ok);
                                      key of at most 8 characters: no blank, encoded value (every quote counted twice, as
                                      write_key counts it) at most 68 characters;
                                      longer key (HIERARCH): no '=', no leading or trailing blank, and
